@@ -1,2 +1,197 @@
-/-! Line driver for C07 (stub; replaced when the model is written). -/
-def main : IO Unit := pure ()
+import MpVerif.C07.Model
+/-! Line driver for C07.  Builds a flat model from definition lines and prints the model's
+`checkSolution` outcome for `check` lines.  No logic of its own: parsing and printing only. -/
+open MpVerif.C07
+
+abbrev P := StateT (List String) Option
+
+def tok : P String := do
+  match (← get) with
+  | [] => failure
+  | t :: r => set r; pure t
+
+def pNat : P Nat := do
+  let t ← tok
+  match t.toNat? with | some n => pure n | none => failure
+
+def pInt : P Int := do
+  let t ← tok
+  match t.toInt? with | some n => pure n | none => failure
+
+def ratOfString (t : String) : Option Rat :=
+  match t.splitOn "/" with
+  | [a] => a.toInt?.map (fun (n : Int) => (n : Rat))
+  | [a, b] => match a.toInt?, b.toNat? with
+    | some n, some d => if d = 0 then none else some ((n : Rat) / (d : Rat))
+    | _, _ => none
+  | _ => none
+
+def pRat : P Rat := do
+  let t ← tok
+  match ratOfString t with | some q => pure q | none => failure
+
+def pBool : P Bool := do
+  let t ← tok
+  if t == "1" then pure true else if t == "0" then pure false else failure
+
+/-- lower bound: rational or `-inf`; upper bound: rational or `inf` -/
+def pLo : P (Option Rat) := do
+  let t ← tok
+  if t == "-inf" then pure none else match ratOfString t with | some q => pure (some q) | none => failure
+def pHi : P (Option Rat) := do
+  let t ← tok
+  if t == "inf" then pure none else match ratOfString t with | some q => pure (some q) | none => failure
+
+def pName : P String := do
+  let t ← tok
+  if t.startsWith "n:" then pure (t.drop 2).toString else failure
+
+def pOptInt : P (Option Int) := do
+  let t ← tok
+  if t == "none" then pure none else match t.toInt? with | some n => pure (some n) | none => failure
+
+def pMany {α} (p : P α) : Nat → P (List α)
+  | 0 => pure []
+  | n + 1 => do let a ← p; let r ← pMany p n; pure (a :: r)
+
+def pList {α} (p : P α) : P (List α) := do let n ← pNat; pMany p n
+
+def pBody : P Body := do
+  let l ← tok; if l != "L" then failure
+  let lin ← pList (do let c ← pRat; let v ← pNat; pure (c, v))
+  let q ← tok; if q != "Q" then failure
+  let quad ← pList (do let c ← pRat; let v1 ← pNat; let v2 ← pNat; pure (c, v1, v2))
+  let k ← tok; if k != "K" then failure
+  let c ← pRat
+  pure ⟨lin, quad, c⟩
+
+def pKind : P RKind := do
+  match (← tok) with
+  | "range" => pure .range | "lt" => pure .lt | "le" => pure .le
+  | "eq" => pure .eq | "ge" => pure .ge | "gt" => pure .gt
+  | _ => failure
+
+def pAlg : P AlgCon := do
+  let k ← pKind; let lo ← pLo; let hi ← pHi; let b ← pBody
+  pure ⟨b, k, lo, hi⟩
+
+def pCtx : P Ctx := do
+  match (← tok) with
+  | "none" => pure .none | "pos" => pure .pos | "neg" => pure .neg | "mix" => pure .mix
+  | _ => failure
+
+def pFunc : P Func := do
+  match (← tok) with
+  | "affine" => do pure (.affine (← pBody))
+  | "max" => do pure (.max (← pList pNat))
+  | "min" => do pure (.min (← pList pNat))
+  | "abs" => do pure (.abs (← pNat))
+  | "and" => do pure (.and (← pList pNat))
+  | "or" => do pure (.or (← pList pNat))
+  | "not" => do pure (.not (← pNat))
+  | "div" => do let a ← pNat; let b ← pNat; pure (.div a b)
+  | "ifthen" => do let c ← pNat; let t ← pNat; let e ← pNat; pure (.ifthen c t e)
+  | "impl" => do let c ← pNat; let t ← pNat; let e ← pNat; pure (.impl c t e)
+  | "alldiff" => do pure (.alldiff (← pList pNat))
+  | "nofc" => do let k ← pRat; pure (.numberofConst k (← pList pNat))
+  | "nofv" => do let v0 ← pNat; pure (.numberofVar v0 (← pList pNat))
+  | "count" => do pure (.count (← pList pNat))
+  | _ => failure
+
+def pCon : P Con := do
+  match (← tok) with
+  | "alg" => do pure (.alg (← pAlg))
+  | "func" => do let r ← pNat; let c ← pCtx; let f ← pFunc; pure (.func r c f)
+  | "adef" => do let r ← pNat; let c ← pCtx; let b ← pBody; pure (.adef r c b)
+  | "cond" => do let r ← pNat; let c ← pCtx; let a ← pAlg; pure (.cond r c a)
+  | "ind" => do let b ← pNat; let bv ← pInt; let a ← pAlg; pure (.indicator b bv a)
+  | "sos1" => do pure (.sos1 (← pList pNat))
+  | "sos2" => do pure (.sos2 (← pList pNat))
+  | "compl" => do let v ← pNat; let b ← pBody; pure (.compl b v)
+  | _ => failure
+
+def pEnd : P Unit := do
+  match (← get) with | [] => pure () | _ => failure
+
+structure St where
+  vars : Array VarD := #[]
+  keepers : Array Keeper := #[]
+  objs : Array Obj := #[]
+  opts : Opts := ⟨0, 0, 0, 0, none, none, false, false⟩
+
+def St.model (s : St) : Model := ⟨s.vars.toList, s.keepers.toList, s.objs.toList⟩
+
+def ratStr (q : Rat) : String := if q.den = 1 then toString q.num else toString q.num ++ "/" ++ toString q.den
+def erStr : ER → String
+  | .ninf => "-inf" | .pinf => "inf" | .fin q => ratStr q
+def optStr : Option String → String
+  | none => "-" | some s => "n:" ++ s
+
+def lineStr (l : Line) : String :=
+  l.label ++ "~" ++ (if l.fmax then "1" else "0") ++ "~" ++ toString l.s.n ++ "~" ++ erStr l.s.maxAbs ++ "~" ++
+    optStr l.s.nameAbs ++ "~" ++ ratStr l.s.maxRel ++ "~" ++ optStr l.s.nameRel
+
+def linesStr (ls : List Line) : String := ";;".intercalate (ls.map lineStr)
+
+def outcomeStr (o : Opts) (oc : Outcome) : String :=
+  let code := match solveCodeOverride o oc with | some c => toString c | none => "-"
+  match oc with
+  | .skipped => "ret=1 code=" ++ code ++ " skipped"
+  | .checked ideal real =>
+    "ret=" ++ (if oc.ret then "1" else "0") ++ " code=" ++ code ++ " warn=" ++ (if warningIssued o oc then "1" else "0") ++
+      " ideal=[" ++ linesStr ideal ++ "] real=[" ++ linesStr real ++ "]"
+
+def step (s : St) (toks : List String) : Option (St × String) :=
+  match toks with
+  | "reset" :: [] => some ({}, "ok")
+  | "opts" :: r =>
+    (do let mode ← pNat; let ft ← pRat; let fr ← pRat; let it ← pRat; let rn ← pOptInt; let pr ← pOptInt
+        let fl ← pBool; let inf ← pBool; pEnd
+        pure ({ s with opts := ⟨mode, ft, fr, it, rn, pr, fl, inf⟩ }, "ok") : P _).run' r
+  | "var" :: r =>
+    (do let lb ← pLo; let ub ← pHi; let isInt ← pBool; let orig ← pBool; let nm ← pName
+        let k ← pInt; let j ← pInt; pEnd
+        let init := if k < 0 then none else some (k.toNat, j.toNat)
+        pure ({ s with vars := s.vars.push ⟨lb, ub, isInt, orig, nm, init⟩ }, "ok") : P _).run' r
+  | "obj" :: r =>
+    (do let nm ← pName; let b ← pBody; pEnd
+        pure ({ s with objs := s.objs.push ⟨b, nm⟩ }, "ok") : P _).run' r
+  | "keeper" :: r =>
+    (do let key ← pName; let lg ← pBool; pEnd
+        pure ({ s with keepers := s.keepers.push ⟨key, lg, []⟩ }, "ok") : P _).run' r
+  | "con" :: r =>
+    (do let depth ← pNat; let br ← pBool; let un ← pBool; let nm ← pName; let c ← pCon; pEnd
+        if s.keepers.size = 0 then failure
+        let kp := s.keepers.back!
+        let kp' : Keeper := { kp with items := kp.items ++ [⟨c, depth, br, un, nm⟩] }
+        pure ({ s with keepers := s.keepers.pop.push kp' }, "ok") : P _).run' r
+  | "check" :: r =>
+    (do let ki ← pBool
+        let xt ← tok; if xt != "X" then failure
+        let xs ← pList pRat
+        let ot ← tok; if ot != "O" then failure
+        let ov ← pList pRat; pEnd
+        let m := s.model
+        if xs.length != m.nvars then failure
+        if !(inFragment m s.opts xs) then
+          pure (s, if m.ordered then "nonfinite" else "unordered")
+        else
+          pure (s, outcomeStr s.opts (checkSolution m s.opts xs ov ki)) : P _).run' r
+  | "recompute" :: r =>
+    (do let xs ← pList pRat; pEnd
+        let m := s.model
+        if !(inFragment m s.opts xs) then pure (s, "outside")
+        else pure (s, " ".intercalate ((recompute m s.opts xs).map ratStr)) : P _).run' r
+  | _ => none
+
+partial def loop (h : IO.FS.Stream) (out : IO.FS.Stream) (s : St) : IO Unit := do
+  let line ← h.getLine
+  if line.isEmpty then return ()
+  let toks := (line.trimAscii.toString.splitOn " ").filter (· ≠ "")
+  match step s toks with
+  | some (s', msg) => out.putStrLn msg; loop h out s'
+  | none => out.putStrLn "bad-op"; loop h out s
+
+def main : IO Unit := do
+  let out ← IO.getStdout
+  loop (← IO.getStdin) out {}
